@@ -283,7 +283,7 @@ class Cons(ReadBase):
     name = 'cons'
 
     def gen(self, rng, tier):
-        n = 130 if tier == 'quick' else 400
+        n = 10 ** 6       # every reference archive (multi-folder, multi-stream and odd samples are few and specific)
         for name, path in ref_pool(rng, n) + synthetic_files(rng, 3 if tier == 'quick' else 30, 'cons'):
             size = os.path.getsize(path)
             src = rng.choice(['cbk', 'cbk', 'cb', 'cbs'])
